@@ -148,6 +148,36 @@ CHECKS = {
         "One valid base frame in 3 encodings; constructor-level faults only for the carvers (where the statement's mechanism lives).",
         "DESIGN.md §3 C19",
     ),
+    "C07": (
+        "E2-bfs",
+        "exhaustive enumeration of transform histories (all row subsets / permutations / re-indexings) on live fitted objects, state-equality oracle",
+        "For each of the six classes (carvers x dropna x output_dtype, with and without dev sample) fitted on a 10-row mixed frame: all 1023 "
+        "non-empty row subsets, all 120 permutations of 5 rows, re-indexings, a frame with repeated rows, the empty frame, and all pairs "
+        "(triples in thorough) over a 21-event sub-alphabet interleaved with summary()/to_json(); every output must equal the corresponding "
+        "rows of the full result, the pickled fitted state and the caller's frames must be identical before/after, fit_transform = fit+transform.",
+        "One base frame (10 rows); the fitted state is compared without _history.",
+        "DESIGN.md §3 C07",
+    ),
+    "C10": (
+        "E3-sched",
+        "stateless deviation-bounded exploration of set-iteration orders and pool execution/completion orders through module-level seams; conformance runs with real hash seeds and real pools",
+        "Every iteration order of every list(set(features)) call (all global orders; every alternative at each call-site instance as a single "
+        "deviation) and every execution/completion order of the imap_unordered pools under a StubPool with pickled task isolation, plus all "
+        "feature subsets, feature-list orders and column orders, for Discretizer/BinaryCarver/ContinuousCarver on 4-feature scenarios; per "
+        "feature the outcome must equal the single-feature sequential fit. The seams are validated against reality by free-running "
+        "subprocess runs under PYTHONHASHSEED values and real multiprocessing pools (reported as traces_validated_against_impl).",
+        "apply_async completion order is not a degree of freedom (results are collected by handle); per-worker module globals and OS-level worker failures are not modelled.",
+        "DESIGN.md §3 C10",
+    ),
+    "C11": (
+        "E1-space",
+        "bounded-exhaustive metamorphic exploration: every state of a reduced carving space x its orbit under generator re-encodings",
+        "For every state (Binary/ContinuousCarver, 3 kinds, k<=3, with/without missing cell) the carver is re-fitted on each generator image: "
+        "row permutations carried with the index (all N! for N<=6), index relabelings, 5 exact affine maps, order-preserving renamings; kept/"
+        "dropped and the partition of row identities must not change.",
+        "Differential oracle (no expected value); one generator from the identity (orbit closure by composition is not explored); exact ties in the measure are covered by open finding F20.",
+        "DESIGN.md §3 C11",
+    ),
 }
 
 NOT_BUILT = "check not built yet (work in progress, see DESIGN.md §7 for the order)"
